@@ -54,14 +54,33 @@ def value_spec(scale, offset, enum):
     return ite(binop("Eq", scale, C(0.0, "f32"), "f32"), plain, per)
 
 
+def _says_src_empty(c, src):
+    if c[0] == "call" and c[1].endswith("::is_empty") and c[2] == (src,):
+        return True
+    if c[0] == "bin" and c[1] == "Eq":
+        xs = c[2:4]
+        return any(sym.is_c(x) and x[1] == 0 for x in xs) and any(x[0] == "len" and x[1] == src or (x[0] == "call" and x[1].endswith("::len") and x[2] == (src,)) for x in xs if isinstance(x, tuple))
+    return False
+
+
 def hoist_seq(t):
-    """ite(c, seq(s, ops, f), seq(s, ops, g)) == seq(s, ops, ite(c, f, g)) when c does not depend on the element"""
+    """ite(c, seq(s, ops, f), seq(s, ops, g)) == seq(s, ops, ite(c, f, g)) when c does not depend on the element;
+    ite(is_empty(s), [], T) == T when every leaf of T is an elementwise sequence over s (which is [] for an empty s)"""
+    if t[0] == "ite" and isinstance(t[2], tuple) and t[2][0] == "call" and t[2][1] in listalg_new():
+        ls = sym._leaves(t[3], [])
+        if ls and all(x[0] == "seq" and x[1] == ls[0][1] for x in ls) and _says_src_empty(t[1], ls[0][1]):
+            t = t[3]
     if t[0] in ("ite", "cases"):
         ls = sym._leaves(t, [])
         if ls and all(x[0] == "seq" and x[1] == ls[0][1] and x[2] == ls[0][2] for x in ls):
             if sym.ELEM not in sym.atoms(cond_of(t)):
                 return ("seq", ls[0][1], ls[0][2], sym.map_leaves(t, lambda x: x[3]))
     return t
+
+
+def listalg_new():
+    from nx import listalg
+    return listalg.NEW
 
 
 def cond_of(t):
